@@ -2,7 +2,6 @@
 
 import typing
 import typing as t
-import unicodedata
 
 from . import nodes
 from .exceptions import TemplateAssertionError
@@ -409,9 +408,7 @@ class Parser:
                 self.stream.expect("comma")
             arg = self.parse_assign_target(name_only=True)
             arg.set_ctx("param")
-            # Python compares identifiers in their NFKC form.
-            norm = unicodedata.normalize("NFKC", arg.name)
-            if any(unicodedata.normalize("NFKC", a.name) == norm for a in args):
+            if any(a.name == arg.name for a in args):
                 self.fail(f"duplicate argument {arg.name!r}", arg.lineno)
             if self.stream.skip_if("assign"):
                 defaults.append(self.parse_expression())
@@ -910,11 +907,7 @@ class Parser:
                     # Parsing a kwarg
                     ensure(dyn_kwargs is None)
                     key = self.stream.current.value
-                    # Python compares identifiers in their NFKC form.
-                    norm = unicodedata.normalize("NFKC", key)
-                    if any(
-                        unicodedata.normalize("NFKC", k.key) == norm for k in kwargs
-                    ):
+                    if any(k.key == key for k in kwargs):
                         self.fail(
                             f"keyword argument {key!r} repeated",
                             self.stream.current.lineno,
